@@ -89,13 +89,13 @@ Proof. exact pipeline_reads_back. Qed.
 
 (** ** The glue of the correspondence harness (Model/Ser.v) *)
 (** reading the tokens of a serialised tree gives the tree back with the bits of every -perm
-    test truncated to twelve bits (as [Mode::from_bits_truncate] does) — for ALL trees, format
+    test truncated to 32 bits (the width of [Mode]; the harness keeps every bit with [Mode::from_bits_retain]) — for ALL trees, format
     strings included: no side condition on the numbers, the strings or the list lengths *)
 Theorem E2E_glue_roundtrip : forall e,
   read_expr (Ser.tokens_of (ser_expr e)) = Some (mask_perm e).
 Proof. exact read_ser. Qed.
 
-(** in particular the tree itself when all permission bits are below 4096 *)
+(** in particular the tree itself when all permission values are below 2^32 *)
 Theorem E2E_glue_roundtrip_exact : forall e, perm_bits_small e ->
   read_expr (Ser.tokens_of (ser_expr e)) = Some e.
 Proof. exact read_ser_exact. Qed.
@@ -110,7 +110,7 @@ Proof. exact (conj dec_print (conj hex_print (conj de_ser_str toks_str))). Qed.
 
 (** the truncation is real *)
 Theorem E2E_glue_truncates :
-  read_expr (Ser.tokens_of (ser_expr (ETest (TPerm PAny 4096)))) = Some (ETest (TPerm PAny 0)).
+  read_expr (Ser.tokens_of (ser_expr (ETest (TPerm PAny 4294967296)))) = Some (ETest (TPerm PAny 0)).
 Proof. exact read_ser_truncates. Qed.
 
 (** ** Non-vacuity *)
